@@ -5,7 +5,8 @@
    meaning `zentry` / SparseLin.dense give to a triple list), followed by the triples of add_constant.
    Definitions only. *)
 From Coq Require Import ZArith QArith List Bool.
-From Pymoto Require Import Base.Num Base.SparseLin Base.FEMat Model.Grid.
+From Bignums Require Import BigQ.
+From Pymoto Require Import Base.Num Base.Qsqrt3 Base.SparseLin Base.FEMat Model.Grid.
 Import ListNotations.
 
 (* ---- index part (Z) ---- *)
@@ -98,8 +99,7 @@ Section Assembly.
   Definition gatherZ (u : list K) (idx : list Z) : list K := map (fun d => vget u (Z.to_nat d)) idx.
 End Assembly.
 
-(* ---- Q-specific helpers used by the correspondence (evaluation only) ---- *)
-(* np.max(element_matrix): default of bcdiagval *)
-Definition Qmax_list (l : list Q) : Q :=
-  match l with [] => 0%Q | a :: t => fold_left (fun m v => if Qle_bool m v then v else m) t a end.
-Definition elmat_max (M : list (list Q)) : Q := Qmax_list (concat M).
+(* ---- evaluation helper (correspondence only) ---- *)
+(* self.bcdiagval = np.max(element_matrix) if bcdiagval is None else bcdiagval *)
+Definition bcdiag_default (o : option bigQ) (M : list (list bigQ)) : bigQ :=
+  match o with Some v => v | None => bq_max_list (concat M) end.
